@@ -132,6 +132,8 @@ pub struct Inner {
     pub switches: u64,
     pub switches_in_op: u64,
     pub own_steps: [u64; MAXT],
+    /// decision points of the operation in flight (reset at every operation start)
+    pub op_steps: [u64; MAXT],
     pub forbid_block: [bool; MAXT],
     pub own_step_bound: [u64; MAXT],
     pub in_op: [bool; MAXT],
@@ -179,6 +181,7 @@ impl Inner {
             switches: 0,
             switches_in_op: 0,
             own_steps: [0; MAXT],
+            op_steps: [0; MAXT],
             forbid_block: [false; MAXT],
             own_step_bound: [u64::MAX; MAXT],
             in_op: [false; MAXT],
@@ -223,10 +226,11 @@ impl Inner {
         CLOCK.store(clock, Ordering::Relaxed);
         if me < MAXT {
             self.own_steps[me] += 1;
-            if self.own_steps[me] > self.own_step_bound[me] && self.verdict.is_none() {
+            self.op_steps[me] += 1;
+            if self.op_steps[me] > self.own_step_bound[me] && self.verdict.is_none() {
                 self.verdict = Some(Verdict::OwnStepBound {
                     thread: me,
-                    steps: self.own_steps[me],
+                    steps: self.op_steps[me],
                 });
                 return CTRL;
             }
@@ -743,7 +747,9 @@ pub fn op_start() -> u64 {
     match sim_id() {
         Some(me) => {
             let c = yield_point(me, SITE_OPSTART);
-            sched().inner.lock().unwrap().in_op[me] = true;
+            let mut g = sched().inner.lock().unwrap();
+            g.in_op[me] = true;
+            g.op_steps[me] = 0;
             c
         }
         None => 0,
